@@ -132,6 +132,10 @@ def build(spec, engine_cls=None, emitter=None, extra_steps=None, extra_topology=
             sp['_parallel'] = True
         procs['zduck'] = LedgerDuck(sp)
         topo['zduck'] = {'log': ('log',)}
+    if not procs and not steps:
+        # nothing at all: an engine can be built for it through an empty Composite
+        from vivarium.core.composer import Composite
+        return cls(composite=Composite({'processes': {}, 'topology': {}}), **kw)
     return cls(processes=procs or None, steps=steps or None, flow=flow or None, topology=topo, **kw)
 
 
